@@ -285,6 +285,7 @@ pub fn run(ctx: &Ctx) -> i32 {
 
     counts(ctx, thorough);
     programs(ctx, thorough);
+    distribute(ctx);
     lookups(ctx);
     ctx.assume("the encoder and reference interpreter (mc-core) implement the Aseprite file specification; validated by byte-exact re-encoding of the 44 corpus files and whole-API agreement on 43 of them (mc selftest)");
     ctx.finish()
@@ -447,6 +448,47 @@ fn programs(ctx: &Ctx, thorough: bool) {
     }
     ctx.family(fam, total, "every permutation of the order-insensitive chunk groups of frame 0 (external files, profile, palette, legacy palette+record, tilesets, layer block, tags+records, slices+records), cels last; full observation", true);
     ctx.sample(json!({"family": fam, "case": "d1:[6, 5, 4, 3, 2, 1, 0]", "meaning": "frame 0 of D1 with its 7 chunk groups in reverse order"}));
+}
+
+/// (d') the frame in which an order-insensitive chunk group is stored (D1 has three frames)
+fn distribute(ctx: &Ctx) {
+    let fam = "distribute";
+    if !ctx.wants_family(fam) {
+        return;
+    }
+    let base = gen::d1(&Fmt::Rgba);
+    // movable kinds: external files, colour profile, palette, tilesets (kept before nothing: the library resolves at the end), slices
+    let kinds = ["extfiles", "profile", "palette", "slice"];
+    let cases = product_vec(&[3, 3, 3, 3]);
+    ctx.family(fam, cases.len() as u64, "D1 (3 frames): external-files, colour-profile, palette and slice chunks each stored in frame 0, 1 or 2 (all 81 assignments); full observation", true);
+    let want = Want::all();
+    cases.par_iter().for_each(|v| {
+        let case = || format!("{:?}", v);
+        if !ctx.wants(fam, &case) {
+            return;
+        }
+        let mut f = base.clone();
+        for (ki, k) in kinds.iter().enumerate() {
+            if v[ki] == 0 {
+                continue;
+            }
+            let (mut moved, mut kept) = (Vec::new(), Vec::new());
+            for c in f.frames[0].chunks.drain(..) {
+                if c.body.kind_name() == *k {
+                    moved.push(c);
+                } else {
+                    kept.push(c);
+                }
+            }
+            f.frames[0].chunks = kept;
+            // put them in front of the target frame's cels
+            let target = &mut f.frames[v[ki]].chunks;
+            for (n, c) in moved.into_iter().enumerate() {
+                target.insert(n, c);
+            }
+        }
+        conform(ctx, fam, &case, &f, &want);
+    });
 }
 
 /// (e) lookups by name with duplicates at every pair of positions, absent names
